@@ -55,7 +55,7 @@ def taste_cli(mods, ref, opts, limit, nofail, ctx):
     return ('good' if bool(built[-1]) else 'bad'), buf.getvalue()[-300:], fs
 
 
-def taste_once(mods, ref, opts, limit, nofail, ctx, mutate=None, schedule=None, prior=None):
+def taste_once(mods, ref, opts, limit, nofail, ctx, mutate=None, schedule=None, prior=None, verbose=None):
     """Returns (outcome, detail): outcome in 'good', 'bad', 'raised'."""
     Taster = mods['amr_kitchen.taste.taste'].Taster
     fs = SymFS()
@@ -72,7 +72,7 @@ def taste_once(mods, ref, opts, limit, nofail, ctx, mutate=None, schedule=None, 
                 pass
         try:
             t = Taster('plt', limit_level=limit, binary_headers=opts[0], binary_shape=opts[1], binary_data=opts[2],
-                       boxes_coordinates=opts[3], nofail=nofail)
+                       boxes_coordinates=opts[3], nofail=nofail, **({} if verbose is None else {'verbose': verbose}))
             ok = bool(t)
         except Exception as e:
             return 'raised', '%s: %s' % (type(e).__name__, str(e)[:160]), fs
@@ -113,6 +113,25 @@ def run_case(case):
                         if sig not in viol:
                             viol[sig] = {'signature': sig, 'what': obl.failed[0][0], 'opts': list(opts), 'limit': limit, 'nofail': nofail}
 
+    # verbosity: silent and chatty validations of a well-formed plotfile
+    for verbose, opts, limit, nofail in [(0, (True, True, True, True), None, False), (0, (True, True, False, False), 0, True), (2, (True, True, True, True), None, True)]:
+        def vpath(ctx, verbose=verbose, opts=opts, limit=limit, nofail=nofail):
+            obl = Obl(ctx)
+            outcome, detail, _ = taste_once(mods, ref, opts, limit, nofail, ctx, verbose=verbose)
+            obl.total += 1
+            if outcome == 'good':
+                obl.trivial += 1
+            else:
+                obl.failed.append(('Taster(headers=%s, shape=%s, data=%s, coords=%s, limit=%s, nofail=%s, verbose=%s) on a well-formed plotfile: %s (%s)'
+                                   % (opts + (limit, nofail, verbose, outcome, detail.strip().splitlines()[-1] if detail.strip() else '')), None))
+            return obl
+        results, exhaustive, stats = core.explore(vpath, max_paths=64)
+        res.add_explore(results, exhaustive, stats)
+        nruns += 1
+        for ctx, obl in results:
+            res.add_obl(obl)
+            if obl.failed and 'C03/verbose' not in viol:
+                viol['C03/verbose'] = {'signature': 'C03/verbose', 'what': obl.failed[0][0], 'opts': list(opts), 'limit': limit, 'nofail': nofail, 'verbose': verbose}
     # the command line: every switch flipped, the defaults, data check alone - failing and non-failing mode
     for opts, limit, nofail in [((False, False, True, True), None, False), ((True, True, False, False), ref.nlev - 1, True), ((True, False, True, False), 0, False),
                                 ((False, True, False, True), None, True)]:
@@ -183,8 +202,8 @@ def run_case(case):
                    "    except Exception:\n        pass\n" % (pl, po[0], po[1], po[2], po[3]))
         run = ("from amr_kitchen.taste.taste import Taster\nimport contextlib, io\n"
                "with contextlib.redirect_stdout(io.StringIO()):\n" + pre +
-               "    t = Taster(os.path.join(IN, 'plt'), limit_level=%r, binary_headers=%r, binary_shape=%r, binary_data=%r, boxes_coordinates=%r, nofail=%r)\n"
-               "RESULT = 1.0 if bool(t) else 0.0\n" % (v['limit'], o[0], o[1], o[2], o[3], v['nofail']))
+               "    t = Taster(os.path.join(IN, 'plt'), limit_level=%r, binary_headers=%r, binary_shape=%r, binary_data=%r, boxes_coordinates=%r, nofail=%r%s)\n"
+               "RESULT = 1.0 if bool(t) else 0.0\n" % (v['limit'], o[0], o[1], o[2], o[3], v['nofail'], '' if v.get('verbose') is None else ', verbose=%r' % v['verbose']))
         if v.get('cli'):
             run = ("import sys, contextlib, io\nfrom amr_kitchen.taste import cli\nbuilt = []\nReal = cli.Taster\n"
                    "def spy(*a, **k):\n    t = Real(*a, **k)\n    built.append(t)\n    return t\n"
